@@ -314,7 +314,7 @@ def guardCmd (toks : List String) : String :=
   | ["ncomp", pyint, n] => verdict (Guards.badNcomp (pyint == "1") n.toNat!)
   | ["grid", a, b] =>
       let o := fun (t : String) => if t == "none" then none else some (fOfTok t)
-      verdict (Guards.noGrid (fun (x : Float) => x != 0) (o a) (o b))
+      verdict (Guards.noGrid (fun (x : Float) => x > 0) (o a) (o b))
   | ["stshape", sh] => verdict (Guards.badStatesShape (shapeOfTok sh))
   | "stsym" :: vals => verdict (Guards.badSymmetry closeCF (fun (a : CF) => Conj.conj a) (triplesOf (cfList vals)))
   | ["scshape", sh] => verdict (Guards.badScalarShape (shapeOfTok sh))
@@ -374,7 +374,7 @@ def guardCmd (toks : List String) : String :=
       | [vars, given, o1, o2] =>
         verdict (Guards.badSeqVars vars given o1 (o2.map (fun t => match t.splitOn "," with | [a, b] => (a, b) | _ => (t, t))))
       | _ => "bad-op"
-  | "pulse" :: xs => verdict (Guards.pulseTooLarge (fun (x : Float) => x > 1) (xs.map fOfTok))
+  | "pulse" :: xs => verdict (Guards.pulseTooLarge (fun (x : Float) => x > 1 + 1e-12) (xs.map fOfTok))
   | _ => "bad-op"
 
 def k4OfToks (a b c t : String) : K4 := ⟨a.toInt!, b.toInt!, c.toInt!, t.toInt!⟩
